@@ -117,7 +117,11 @@ impl<'de, R: Reader<'de>> Deserializer<R> {
     where
         T: de::Deserialize<'de>,
     {
-        let value = tri!(de::Deserialize::deserialize(&mut *self));
+        let value = match de::Deserialize::deserialize(&mut *self) {
+            Ok(value) => value,
+            // errors made outside the deserializer (derived code of untagged or tagged enums) have no position yet
+            Err(err) => return Err(self.parser.fix_position(err)),
+        };
         // strings that are skipped or parsed by the DOM parser are not checked one by one:
         // make sure that the consumed document does not contain invalid UTF-8.
         tri!(self.parser.check_invalid_utf8(self.parser.cfg.utf8_lossy));
@@ -1337,7 +1341,11 @@ where
         de = de.utf8_lossy();
     }
 
-    let value = tri!(de::Deserialize::deserialize(&mut de));
+    let value = match de::Deserialize::deserialize(&mut de) {
+        Ok(value) => value,
+        // errors made outside the deserializer (derived code of untagged or tagged enums) have no position yet
+        Err(err) => return Err(de.parser.fix_position(err)),
+    };
 
     // Make sure the whole stream has been consumed.
     tri!(de.parser.parse_trailing());
